@@ -118,3 +118,25 @@ Fixpoint parse_params (l : list str) : option (list (str * str)) :=
       end
   end.
 Definition parse_query (q : str) : option (list (str * str)) := parse_params (split_on 38 q).
+
+(* ---------- how a Repository / Registry value comes to exist, and the Registry's own requests ----------
+   remote.NewRepository(s): registry.ParseReference(s), the whole parsed reference is the base;
+   remote.NewRegistry(name): ValidateRegistry;  Registry.Repository(ctx, name): the registry's name
+   plus ValidateRepository(name);  Registry.Ping: GET <base URL>;  Registry.Repositories(last):
+   GET <catalog URL>[?n=<page size>][&last=<last>]. *)
+Section Constructors.
+  Variable avail : str -> bool.
+  Variable valid_registry : str -> bool.
+  Definition new_repository (s : str) : option reference := parse avail valid_registry s.
+  Definition new_registry (name : str) : option str := if valid_registry name then Some name else None.
+  Definition registry_repository (reg name : str) : option reference :=
+    if valid_repository name then Some (mkRef reg name []) else None.
+End Constructors.
+
+Inductive regop := RPing | RCatalog.
+Definition reg_op_requests (op : regop) (plain : bool) (reg a1 num : str) : list (str * str) :=
+  let r := mkRef reg [] [] in
+  match op with
+  | RPing => [(m_get, url_base plain r)]
+  | RCatalog => [(m_get, with_query (url_catalog plain r) (opt_param (b "n") num ++ opt_param (b "last") a1))]
+  end.
